@@ -452,8 +452,9 @@ package nitro
 //@ func (*Nitro).Visitor$1
 //@ props C10
 //@ use sl-globals
+//@ use! kc-antisym for loop1.inv-preserved[ascending]
 //@ requires m != nil && snap != nil && snap.db == m && wfStore(m) && snap.refCount > 0 && snap.refCount < 1000000000 && len(pivotItems) == 0 && cap(pivotItems) == 0
-//@ modifies *
+//@ modifies pivotItems, snap.refCount, m.store.Stats.readConflicts, mem(int32), heap($alive), heap($brk)
 //@ loop 1 invariant[ctx] m != nil && snap != nil && snap.db == m && wfStore(m) && tmpIter != nil && wfIter(tmpIter) && bufOK(tmpIter) && tmpIter.snap == snap && !tmpIter.iter.deleted && fresh61(tmpIter)
 //@ loop 1 invariant[ptrs] -1 <= rangeindex && rangeindex < len(pivotPtrs) && (forall k int {pivotPtrs[k]} :: 0 <= k && k < len(pivotPtrs) ==> pivotPtrs[k] != nil) &&
 //@     (len(pivotPtrs) == 0 || ptr(pivotPtrs) + 8 * len(pivotPtrs) <= brk())
@@ -484,3 +485,11 @@ package nitro
 //@ loop 3 invariant[scanned] -1 <= rangeindex && (forall j int {errors[j]} :: 0 <= j && j <= rangeindex && j < len(errors) ==> errors[j] == nil)
 //@ ensures[error] result == nil ==> (forall j int {errors[j]} :: 0 <= j && j < len(errors) ==> errors[j] == nil)
 //@ nopanic
+
+// Partition lemma (uniqueness half): with pivot keys non-decreasing, an item lies in the key range of at most one
+// shard. pv[1..npv-2] are the non-nil pivots; shard j covers keys in [pv[j], pv[j+1]) (open-ended at the nil ends).
+//@ ghost global pv [int]ref
+//@ ghost global npv int
+//@ pure inShard(x ref, j int) bool = 0 <= j && j + 1 < npv && (j == 0 || kc(x, pv[j]) >= 0) && (j + 2 == npv || kc(x, pv[j + 1]) < 0)
+//@ lemma shard-unique props=C10 use=kc-antisym,kc-trans: (npv >= 2 && (forall a, b int {pv[a], pv[b]} :: 1 <= a && a <= b && b + 1 < npv ==> kc(pv[a], pv[b]) <= 0)) ==>
+//@     (forall x ref, j1, j2 int :: inShard(x, j1) && inShard(x, j2) ==> j1 == j2)
